@@ -218,9 +218,38 @@ GroundCases(wide) ==
               : vals \in Tuples(sg.as, ValPool), p \in sg.ps }
             : sg \in MyGSigs(wide) }
 
+\* ---------------------------------------------------------------------------
+\* terms over custom sorts, composite sorts and Boolean terms nested in theory terms (C12, C13)
+TSs == TSort("S")
+TPair == Ty("Sort", 0, "Pair", <<TInt, TSs>>)
+K1s == Sym("k1", TSs)
+K2s == Sym("k2", TSs)
+PP == Sym("pp", TPair)
+FS == TFun(TSs, <<TSs, TInt>>)
+GS == TFun(TBool, <<TBool, TSs>>)
+AS == Sym("as", TArray(TSs, TBool))
+ANest == Sym("an", TArray(TInt, TArray(TInt, TReal)))
+LSTerms ==
+    {Op("equals", <<K1s, K2s>>), Op("equals", <<App("fs", FS, <<K1s, Xx>>), K2s>>),
+     App("gs", GS, <<P, K1s>>), App("gs", GS, <<Op("and", <<P, Qs>>), App("fs", FS, <<K2s, IntC(1)>>)>>),
+     Op("array_select", <<AS, K1s>>), Op("and", <<Op("array_select", <<AS, K1s>>), P>>),
+     Op("equals", <<PP, PP>>), Quant("forall", <<BVar("k1", TSs)>>, Op("equals", <<K1s, K2s>>)),
+     Quant("exists", <<BVar("pp", TPair), BVar("p", TBool)>>, Op("or", <<P, Op("equals", <<K1s, K2s>>)>>)),
+     Op("equals", <<Op("array_select", <<Op("array_select", <<ANest, Xx>>), Yy>>), RealC(<<1, 2>>)>>),
+     Op("equals", <<Op("ite", <<P, Xx, Yy>>), IntC(1)>>),
+     Op("le", <<Op("ite", <<Op("lt", <<Xx, Yy>>), Xx, Yy>>), Op("ite", <<Qs, IntC(0), Xx>>)>>),
+     Op("ite", <<Op("ite", <<P, Qs, Op("le", <<Xx, Yy>>)>>), Op("not", <<P>>), Op("equals", <<Bb, Cc>>)>>),
+     Op("iff", <<App("g", TG1, <<Op("ite", <<P, Bb, Cc>>)>>), Qs>>),
+     Op("and", <<Op("array_select", <<Sym("m", TAVB), Bb>>), Op("array_select", <<Op("array_store", <<Sym("m", TAVB), Cc, P>>), Bb>>)>>),
+     Op("or", <<Op("equals", <<Op("plus", <<Xx, Xx>>), Op("times", <<Xx, IntC(2)>>)>>), Op("lt", <<Op("plus", <<Xx, Xx>>), Yy>>)>>),
+     Quant("forall", <<BVar("x", TInt)>>, Op("and", <<Op("le", <<Xx, Yy>>), Quant("exists", <<BVar("y", TInt)>>, Op("lt", <<Yy, Xx>>))>>)),
+     Op("and", <<P, Quant("exists", <<BVar("p", TBool)>>, Op("or", <<P, Qs>>))>>),
+     Op("str_prefixof", <<Sym("s", TString), Op("ite", <<P, StrC(<<97>>), Sym("s", TString)>>)>>),
+     Op("bv_ult", <<Bb, Op("ite", <<Op("bv_ult", <<Cc, Bb>>), Cc, BVC(1, 2)>>)>>)}
+
 Corpus == CASE Layer = "L1" -> L1_(0) [] Layer = "L2" -> L2_(0) [] Layer = "LQ" -> LQ_(0)
             [] Layer = "G1" -> GroundCases(FALSE) [] Layer = "G1W" -> GroundCases(TRUE)
-            [] Layer = "VALS" -> {ValPool}
+            [] Layer = "VALS" -> {ValPool} [] Layer = "LS" -> LSTerms
 
 VARIABLE done
 Init == done = FALSE /\ LET c == SetToSeq(Corpus)
